@@ -3,7 +3,7 @@
 
 use crate::mkpdf::*;
 use crate::observe::*;
-use crate::refcrypt::{variant, Handler};
+use crate::refcrypt::{hash_2b_trace, variant, Handler};
 use crate::report::*;
 use pdf::file::FileOptions;
 use pdf::object::{PlainRef, Resolve};
@@ -108,6 +108,10 @@ pub fn run(cases_path: &str, report_path: &str, _opts: &[String]) {
             }
             continue;
         }
+        if case["kdf"] == true {
+            kdf_case(&mut rep, case);
+            continue;
+        }
         rep.cases += 1;
         rep.execs += 1;
         let place = case["place"].as_str().unwrap();
@@ -164,4 +168,60 @@ pub fn run(cases_path: &str, report_path: &str, _opts: &[String]) {
         if ci % 700 == 1 { rep.sample(json!({"case": case, "file_len": b.bytes.len()})); }
     }
     rep.write(report_path);
+}
+
+/// C06, revision 6 hash iteration rule (spec/Kdf.tla): find a password whose reference hash, at the place named by
+/// `role`, follows exactly the pattern of last-byte relations of the case; write a document with it; it must open
+/// with that password and decrypt.
+fn kdf_case(rep: &mut Report, case: &Value) {
+    rep.cases += 1;
+    rep.nontrivial += 1;
+    let role = case["role"].as_str().unwrap();
+    let pattern: Vec<&str> = case["pattern"].as_array().unwrap().iter().map(|v| v.as_str().unwrap()).collect();
+    let var = variant("R6-AESV3");
+    // U of the fixed user password (the owner hashes take it as extra input)
+    let fixed_user: &[u8] = b"userpw";
+    let u_fixed = Handler::new(var.clone(), fixed_user, b"x", -3904, ID0, true).u;
+    let (salt, udata): (&[u8], Vec<u8>) = match role {
+        "user-validation" => (b"uvalsalt", vec![]), "user-key" => (b"ukeysalt", vec![]),
+        "owner-validation" => (b"ovalsalt", u_fixed.clone()), _ => (b"okeysalt", u_fixed.clone()),
+    };
+    let mut found: Option<Vec<u8>> = None;
+    for n in 0..200000u32 {
+        let pw = format!("k{}", n).into_bytes();
+        if hash_2b_trace(&pw, salt, &udata).1 == pattern { found = Some(pw); break; }
+    }
+    let pw = match found { Some(p) => p, None => { rep.notes.push(format!("no password found for {} {:?}", role, pattern)); rep.count("kdf:not-found"); return; } };
+    let (user, owner): (Vec<u8>, Vec<u8>) = if role.starts_with("user") { (pw.clone(), b"ownerpw".to_vec()) } else { (fixed_user.to_vec(), pw.clone()) };
+    let h = Handler::new(var, &user, &owner, -3904, ID0, true);
+    let mut d = Doc::new(b"");
+    let mut e: Vec<(u64, XEntry)> = vec![(0, XEntry::Free { next: 0, gen: 65535 })];
+    let o = d.obj(1, 0, b"<< /Type /Catalog /Pages 2 0 R >>"); e.push((1, XEntry::InUse { off: o, gen: 0 }));
+    let o = d.obj(2, 0, &empty_pages_body()); e.push((2, XEntry::InUse { off: o, gen: 0 }));
+    let o = d.obj(9, 0, format!("<< /S {} >>", hexs(&h.encrypt(9, 0, b"baseline"))).as_bytes()); e.push((9, XEntry::InUse { off: o, gen: 0 }));
+    let o = d.stream(3, 0, "/T 1", &h.encrypt(3, 0, b"stream plaintext"), None, false); e.push((3, XEntry::InUse { off: o, gen: 0 }));
+    let o = d.obj(8, 0, h.dict().as_bytes()); e.push((8, XEntry::InUse { off: o, gen: 0 }));
+    d.xref_table(&e, 10, &format!("/Root 1 0 R /Encrypt 8 0 R /ID [{} {}]", hexs(ID0), hexs(ID0)), None, Split::Min);
+    let class = format!("kdf:{}:{}", role, pattern.join("-"));
+    let detail = |what: &str, obs: Value| json!({"case": case, "password": String::from_utf8_lossy(&pw), "what": what, "observed": obs});
+    for (who, p) in [("found", pw.clone()), ("other", if role.starts_with("user") { owner.clone() } else { user.clone() })] {
+        rep.execs += 1;
+        match guarded(|| FileOptions::uncached().password(&p).load(d.buf.clone())) {
+            Outcome::Panic(pi) => rep.fail(&format!("panic:{}", class), detail(who, panic_json(&pi))),
+            Outcome::Done(Err(er)) => rep.fail(&format!("rejected:{}", class), detail(who, err_json(&er))),
+            Outcome::Done(Ok(f)) => {
+                let r = f.resolver();
+                let s_ok = matches!(guarded(|| r.resolve(PlainRef { id: 9, gen: 0 })), Outcome::Done(Ok(Primitive::Dictionary(ref dd))) if matches!(dd.get("S"), Some(Primitive::String(s)) if s.as_bytes() == b"baseline"));
+                let st_ok = match guarded(|| r.resolve(PlainRef { id: 3, gen: 0 })) { Outcome::Done(Ok(Primitive::Stream(s))) => matches!(guarded(|| s.raw_data(&r)), Outcome::Done(Ok(ref dta)) if &dta[..] == b"stream plaintext"), _ => false };
+                if !s_ok || !st_ok { rep.fail(&format!("plaintext:{}", class), detail(who, json!({"string_ok": s_ok, "stream_ok": st_ok}))); }
+            }
+        }
+    }
+    rep.execs += 1;
+    match guarded(|| FileOptions::uncached().password(b"certainly wrong").load(d.buf.clone())) {
+        Outcome::Done(Err(er)) if err_kind(&er) == "Password" => {}
+        Outcome::Done(Err(er)) => rep.fail(&format!("wrong-password-other-error:{}", class), detail("wrong", err_json(&er))),
+        Outcome::Done(Ok(_)) => rep.fail(&format!("wrong-password-accepted:{}", class), detail("wrong", json!({}))),
+        Outcome::Panic(pi) => rep.fail(&format!("panic:{}", class), detail("wrong", panic_json(&pi))),
+    }
 }
